@@ -1,6 +1,7 @@
 import CE.Cbe.Encode
 import CE.Cbe.Decode
 import CE.Canon
+import CE.Io.Reader
 import CE.Api.Dispatch
 import CE.Gen.Api
 import CE.Cbe.Minimal
@@ -169,8 +170,43 @@ def apiVersion (args : List String) : String :=
     | none => "BADINPUT"
   | _ => "BADINPUT"
 
+def schedOf (l : List Nat) : Nat → Nat :=
+  fun i => if l.isEmpty then 1073741824 else l.getD (i % l.length) 1
+
+def parseSizes (s : String) : Option (List Nat) :=
+  if s == "-" then some [] else (s.splitOn ",").mapM String.toNat?
+
+def ioErrName : Io.IOErr → String
+  | .eof => "EOF" | .fault => "FAULT" | .noProgress => "NOPROGRESS"
+
+/-- READER.ALL doc sizes eofWithData: the bytes the adapter hands the decoder, read byte-wise -/
+def readerAll (args : List String) : String :=
+  match args with
+  | [doc, sizes, flag] =>
+    match Hex.decode doc, parseSizes sizes with
+    | some bs, some l =>
+      let a : Io.Adapter := { src := { data := bs, sched := schedOf l, eofWithData := flag == "1" } }
+      match Io.readAll (bs.length + 1) a with
+      | (out, none) => "OK " ++ Hex.encode out
+      | (out, some e) => s!"ERR {ioErrName e} {Hex.encode out}"
+    | _, _ => "BADINPUT"
+  | _ => "BADINPUT"
+
+/-- READER.FAULT doc sizes failAt withData -/
+def readerFault (args : List String) : String :=
+  match args with
+  | [doc, sizes, k, flag] =>
+    match Hex.decode doc, parseSizes sizes, k.toNat? with
+    | some bs, some l, some k =>
+      let a : Io.Adapter := { src := { data := bs, sched := schedOf l, failIn := some k, failWithData := flag == "1" } }
+      match Io.readAll (bs.length + 1) a with
+      | (out, none) => "OK " ++ Hex.encode out
+      | (out, some e) => s!"ERR {ioErrName e} {Hex.encode out}"
+    | _, _, _ => "BADINPUT"
+  | _ => "BADINPUT"
+
 def ops : List (String × (List String → String)) :=
-  [("CBE.ENC", cbeEnc), ("CBE.DEC", cbeDec), ("CANON.EQ", canonEq), ("RULES", rulesOp), ("WF.REL", wfRel), ("FWD.EQ", fwdEq), ("MEASURE", measureOp), ("CBE.MINLEN", minLenOp), ("API.DETECT", apiDetect), ("API.VERSION", apiVersion)]
+  [("CBE.ENC", cbeEnc), ("CBE.DEC", cbeDec), ("CANON.EQ", canonEq), ("RULES", rulesOp), ("WF.REL", wfRel), ("FWD.EQ", fwdEq), ("MEASURE", measureOp), ("CBE.MINLEN", minLenOp), ("API.DETECT", apiDetect), ("API.VERSION", apiVersion), ("READER.ALL", readerAll), ("READER.FAULT", readerFault)]
 
 def splitArrow : List String → List String × String
   | [] => ([], "")
